@@ -63,19 +63,19 @@ type StaticSpec struct {
 
 // Setup is the whole set-up program of one flamego instance.
 type Setup struct {
-	Env      int // 0 dev, 1 prod, 2 test
-	Mw       []HSpec
-	Batches  []int // sizes of the Use() calls
-	Nodes    []Node
-	NotFound []HSpec // nil: flamego's default
-	Action   *HSpec
-	AutoHead bool
-	Befores  int
-	Static   *StaticSpec
-	Svc      bool
+	Env       int // 0 dev, 1 prod, 2 test
+	Mw        []HSpec
+	Batches   []int // sizes of the Use() calls
+	Nodes     []Node
+	NotFound  []HSpec // nil: flamego's default
+	Action    *HSpec
+	AutoHead  bool
+	Befores   int
+	Static    *StaticSpec
+	Svc       bool
 	FinalEcho bool
-	EnvLate  bool // the environment is switched to Env only after set-up (middleware constructed under another one)
-	Routes   []*RouteSpec // flattened, in registration order
+	EnvLate   bool         // the environment is switched to Env only after set-up (middleware constructed under another one)
+	Routes    []*RouteSpec // flattened, in registration order
 }
 
 // Pat is a route pattern with request paths that instantiate or nearly miss it.
@@ -146,19 +146,19 @@ type Profile struct {
 	HeadersPm    int
 	NamedPm      int
 	// programs
-	Ops        []int // op weights indexed by op
-	MaxActs    int
-	NextMax    int // cap on Next()/NextSwallow ops per program
-	RetW       []int // weights of return kinds: zero, value, error
-	FinalEcho  bool // the last handler of each route echoes by default
-	PanicPm    int  // per request: one handler program gets a panic
-	MissingPm  int  // per set-up: one handler asks for a type nobody mapped
-	BadStatus  int  // per request: one status is outside 100..999
-	WFaultPm   int  // per request: writer fault plan
-	HookPanicPm int // per request: a BeforeFunc that panics, fired by a write of the handler that registered it
-	CancelPm   int  // per request: planned cancel at a chain-relevant yield index
-	DeadlinePm int  // per request: virtual deadline
-	FaultFree  int  // per run: all faults off
+	Ops         []int // op weights indexed by op
+	MaxActs     int
+	NextMax     int   // cap on Next()/NextSwallow ops per program
+	RetW        []int // weights of return kinds: zero, value, error
+	FinalEcho   bool  // the last handler of each route echoes by default
+	PanicPm     int   // per request: one handler program gets a panic
+	MissingPm   int   // per set-up: one handler asks for a type nobody mapped
+	BadStatus   int   // per request: one status is outside 100..999
+	WFaultPm    int   // per request: writer fault plan
+	HookPanicPm int   // per request: a BeforeFunc that panics, fired by a write of the handler that registered it
+	CancelPm    int   // per request: planned cancel at a chain-relevant yield index
+	DeadlinePm  int   // per request: virtual deadline
+	FaultFree   int   // per run: all faults off
 	// workload
 	MinTasks, MaxTasks int
 	MinReqs, MaxReqs   int
